@@ -2,4 +2,4 @@
 
 package main
 
-func init() { raceEnabled = true }
+func init() { c16RaceEnabled = true }
